@@ -36,6 +36,10 @@ func flowBoundaries(c *Ctx) []*ssa.Function {
 		if strings.HasPrefix(file, "ext/dynblock/variables") || strings.HasPrefix(file, "hcldec/variables") || strings.HasPrefix(file, "hclsyntax/variables") {
 			continue
 		}
+		// a closure that only peels marks into its parent's accumulator is part of the parent
+		if _, _, ok := peelSummary(fn); ok {
+			continue
+		}
 		out = append(out, fn)
 	}
 	return out
